@@ -82,7 +82,9 @@ def kitchen_sink_src(date="2024-01-01T00:00:00", ns_prefix="xtce") -> str:
         "PAD4": f'parameter_types.IntegerParameterType("PAD4_T", {_int(4)})',
     }
     for n, t in types.items():
-        desc = f', short_description="short {n}", long_description="long text of {n}"' if n in ("MODE", "TEMP") else ""
+        desc = f', short_description="short {n}", long_description="long text of {n}"' if n in ("MODE",) else ""
+        if n == "TEMP":     # a description of several lines, with indentation, a blank line and trailing blanks: text is data
+            desc = ', short_description="short TEMP", long_description="first line\\n    second line, indented\\n\\n  fourth line  "'
         params.append(f'parameters.Parameter("{n}", {t}{desc})')
     src = f"""(lambda P: (lambda COMMON: XtcePacketDefinition([
         containers.SequenceContainer("CCSDSPacket", [P[n] for n in {[n for n, _ in HEADER]!r}], abstract=True,
@@ -420,6 +422,53 @@ def nested_src(date="2024-01-01T00:00:00") -> str:
             containers.SequenceContainer("OUTER", [P["PB"],
                 containers.SequenceContainer("INNER", [P["PC"],
                     containers.SequenceContainer("LEAF", [P["PD"]])])])]),
+      ], ns={{"xtce": "{URI}"}}, xtce_ns_prefix="xtce", date={date!r}))({{p.name: p for p in [{", ".join(params)}]}})"""
+
+
+def minimal_header_src() -> str:
+    """A definition that decodes just the seven CCSDS header fields (any packet is recognised)."""
+    params = [f'parameters.Parameter("{n}", parameter_types.IntegerParameterType("{n}_T", {_int(w)}))' for n, w in HEADER]
+    return f"""XtcePacketDefinition([containers.SequenceContainer("CCSDSPacket", [{", ".join(params)}])], ns={{"xtce": "{URI}"}}, xtce_ns_prefix="xtce")"""
+
+
+XTCE_CHARSETS = ('US-ASCII', 'ISO-8859-1', 'Windows-1252', 'UTF-8', 'UTF-16', 'UTF-16LE', 'UTF-16BE', 'UTF-32', 'UTF-32LE', 'UTF-32BE')
+
+
+def supported_charsets(h: Harness):
+    """The character sets the library says it supports: the class-level tuple of StringDataEncoding that contains 'UTF-8'
+    (found by role); the XTCE list when no such tuple is found."""
+    import ast as _ast
+    ci = h.it.prog.classes.get("StringDataEncoding")
+    if ci is not None:
+        for k, v in ci.attrs.items():
+            if isinstance(v, (_ast.Tuple, _ast.List)) and any(isinstance(x, _ast.Constant) and x.value == "UTF-8" for x in v.elts):
+                try:
+                    vals = h.it._eval_class_attr(ci, v)
+                    if all(isinstance(x, str) for x in vals):
+                        return tuple(vals)
+                except (Unsupported, Raised):
+                    pass
+    return XTCE_CHARSETS
+
+
+def twins_src(charsets, date="2024-01-01T00:00:00") -> str:
+    """A definition with values that are equal but distinguishable (an enumeration keyed 0.0/1.0 on a float encoding written
+    before one keyed 0/1 on an integer encoding, with the same labels) and one string parameter per supported character set."""
+    params = []
+    for n, w in HEADER:
+        params.append(f'parameters.Parameter("{n}", parameter_types.IntegerParameterType("{n}_T", {_int(w)}))')
+    types = {
+        "EF": f'parameter_types.EnumeratedParameterType("EF_T", {E}.FloatDataEncoding(32), {{0.0: "OFF", 1.0: "ON"}})',
+        "EI": f'parameter_types.EnumeratedParameterType("EI_T", {_int(8)}, {{0: "OFF", 1: "ON"}})',
+        "EB": f'parameter_types.EnumeratedParameterType("EB_T", {_int(16)}, {{1: "ON", 0: "OFF"}})',
+    }
+    for i, cs in enumerate(charsets):
+        bo = ', byte_order="mostSignificantByteFirst"' if cs.upper() in ("UTF-16", "UTF-32") else ""
+        types[f"S{i}"] = f'parameter_types.StringParameterType("S{i}_T", {E}.StringDataEncoding(fixed_raw_length=32, encoding={cs!r}{bo}))'
+    for n, t in types.items():
+        params.append(f'parameters.Parameter("{n}", {t})')
+    return f"""(lambda P: XtcePacketDefinition([
+        containers.SequenceContainer("CCSDSPacket", [P[n] for n in {[n for n, _ in HEADER] + list(types)!r}]),
       ], ns={{"xtce": "{URI}"}}, xtce_ns_prefix="xtce", date={date!r}))({{p.name: p for p in [{", ".join(params)}]}})"""
 
 
